@@ -109,7 +109,7 @@ def main():
         "setup_cmd": "./setup.sh",
         "hooks": {
             "guard": "cfg(kani)",
-            "enable": "set by the Kani compiler only (cargo kani); ordinary cargo build/test never sees the hooks",
+            "enable": "no hooks are installed: engine M reads rustc's MIR of the unmodified sources and engine K uses public API only; cfg(kani) (set by the Kani compiler only) is the guard any future hook would use",
             "baseline_off_cmd": "cd /repo && cargo nextest run --workspace --no-fail-fast --tool-config-file pb:/w/lib/nextest.toml --profile pb --test-threads 8 --offline",
             "source_commits": hooks_commits,
             "add_only": True,
